@@ -220,7 +220,12 @@ class Run:
         self.path = os.path.join(ctx.workdir, "c16.nix")
         self.f = None
         self.blk = None
-        self.df = None
+        self._dfs = []
+        self._turn = 0
+        # how handles to the frame are used: "single" = one retained handle, "fresh" = a new handle from
+        # block.data_frames for every step, "two" = two retained handles used in turn (what one handle
+        # writes, the other must read: no per-handle caches of names, types, units, counts or data)
+        self.handles = case.get("handles", "single")
         self.m = None
         self.last = ("create", "create")    # (op name, op class) of the last state change
         self.skip_units = False     # units aspect out of sync after a reported violation
@@ -230,6 +235,24 @@ class Run:
         self.nontrivial = False
         self.classes = set()
         self.keys = set()
+
+    # -- handles
+    @property
+    def df(self):
+        if not self._dfs:
+            return None
+        if self.handles == "fresh" and self.blk is not None:
+            return self.blk.data_frames["frame"]
+        if self.handles == "two":
+            if len(self._dfs) < 2:
+                self._dfs.append(self.blk.data_frames["frame"])
+            self._turn += 1
+            return self._dfs[self._turn % 2]
+        return self._dfs[0]
+
+    @df.setter
+    def df(self, h):
+        self._dfs = [] if h is None else [h]
 
     # -- plumbing
     def stat(self, k, n=1):
@@ -707,6 +730,9 @@ class Run:
         after = self.observe()
         if raised is None and must_raise:
             self.viol("refusal/%s/not-refused" % what, {"call": desc})
+        if raised is None and not must_raise and after != before:
+            self.stat("probe:%s:accepted-and-applied" % what)
+            raise Abandon()             # not refused, so nothing is claimed; the model no longer applies
         if after != before:
             diff = [k for k in before if before[k] != after.get(k)]
             self.viol("refusal/%s/table-changed" % what,
@@ -760,6 +786,37 @@ class Run:
             rows = [tuple(m.row([k + i])) for i in range(len(idx))]
             return self.probe_call(what, "write_rows(<%d rows>, %s) on %d rows" % (len(rows), idx, m.n),
                                    lambda: df.write_rows(rows, idx))
+        if what in ("badrow_write_rows", "badrow_append_rows", "text_write_rows", "count_write_rows"):
+            # a call with several rows of which a LATER one is unacceptable: nothing of the call may be applied
+            if what != "badrow_append_rows" and m.n < 2:
+                return "skip"
+            nrows = 2 + op["d"] % 2
+            idx = sorted(set(i % m.n for i in op["idx"]))[:nrows] if m.n else []
+            if what != "badrow_append_rows":
+                if len(idx) < 2:
+                    idx = [0, m.n - 1]
+                nrows = len(idx)
+            rows = [tuple(m.row([k + i])) for i in range(nrows)]
+            bad = 1 + (op["row"] % (nrows - 1))
+            if what == "count_write_rows":
+                rows = rows + [tuple(m.row([k + 7]))] if op["d"] % 2 else rows[:-1]
+                return self.probe_call(what, "write_rows(<%d rows>, %s)" % (len(rows), idx), lambda: df.write_rows(rows, idx))
+            if what == "text_write_rows":
+                numeric = [j for j, tt in enumerate(m.types) if tt not in ("str", "bool")]
+                if not numeric:
+                    return "skip"
+                j = numeric[op["col"] % len(numeric)]
+                r = list(rows[bad])
+                r[j] = "not a number"
+                rows[bad] = tuple(r)
+                return self.probe_call(what, "write_rows(<%d rows, row %d has text in column %d>, %s)" % (nrows, bad, j, idx),
+                                       lambda: df.write_rows(rows, idx), must_raise=False)
+            rows[bad] = rows[bad][:-1] if op["d"] % 4 < 2 else rows[bad] + (val(t, k),)
+            if what == "badrow_write_rows":
+                return self.probe_call(what, "write_rows(<%d rows, row %d has %d cells>, %s) on %d columns" % (
+                    nrows, bad, len(rows[bad]), idx, m.nc), lambda: df.write_rows(rows, idx))
+            return self.probe_call(what, "append_rows(<%d rows, row %d has %d cells>) on %d columns" % (
+                nrows, bad, len(rows[bad]), m.nc), lambda: df.append_rows(rows))
         if what == "oob_write_cell_pos":
             r = m.n + d - 1
             return self.probe_call(what, "write_cell(%r, position=(%d, %d)) on %d rows" % (show(val(t, k)), r, c, m.n),
@@ -812,7 +869,7 @@ def run_case(case, ctx):
             pass
     cols = case["cols"]
     classes = ["how:" + case["how"], "ncols:%d" % len(cols), "rows0:%d" % len(case["rows"]),
-               "abandoned:%s" % abandoned]
+               "abandoned:%s" % abandoned, "handles:" + case.get("handles", "single")]
     classes += ["type:" + t for t in sorted(set(c[1] for c in cols))]
     if any(any(ord(ch) > 127 for ch in c[0]) for c in cols):
         classes.append("name:non-ascii")
@@ -829,7 +886,8 @@ def run_case(case, ctx):
 # ------------------------------------------------------------------ domain / generation
 
 PROBES = ["len_write_column", "len_append_column", "unknown_write_column", "unknown_write_cell", "oob_write_rows",
-          "oob_write_cell_pos", "oob_write_cell_name", "dup_append_column", "dup_create"]
+          "oob_write_cell_pos", "oob_write_cell_name", "dup_append_column", "dup_create",
+          "badrow_write_rows", "badrow_append_rows", "text_write_rows", "count_write_rows"]
 
 
 def _isint(x):
@@ -952,7 +1010,8 @@ def case_strategy(draw, max_ops=16):
     nrows = draw(st.integers(1 if how in ("names_data", "structured") else 0, 6))
     rows = draw(st.lists(st.lists(ATOM, min_size=ncols, max_size=ncols), min_size=nrows, max_size=nrows))
     prog = draw(st.lists(op_strategy(), min_size=3, max_size=max_ops))
-    return {"cols": [[n, t] for n, t in zip(names, types)], "how": how, "rows": rows, "prog": prog}
+    return {"cols": [[n, t] for n, t in zip(names, types)], "how": how, "rows": rows, "prog": prog,
+            "handles": draw(st.sampled_from(["single", "single", "fresh", "two", "two"]))}
 
 
 def shards(tier, seed):
